@@ -92,6 +92,21 @@ PROPS["C17"] = _api("C17", ["C17_same_untouched", "C17_idempotent", "C17_differs
                      "live connections surviving a matching populate / dropped by a replacing one: registry-level here (the proxy object is untouched / stopped); socket level belongs to C03"])
 
 
+PROPS["C19"] = {
+    "lean_modules": ["Toxi.Proofs.C19"],
+    "theorems": ["Toxi.Client." + t for t in [
+        "C19_errors_surface", "C19_lookup_failure_stops", "C19_update_keeps_toxicity", "C19_update_sets_toxicity",
+        "C19_add_defaults", "C19_cli_update_fixed", "C19_cli_update_body", "C19_cli_legacy_resets",
+        "C19_toggle_request", "C19_cli_add_needs_type", "get_proxy_state", "get_proxy_status"]],
+    "engines": [{"engine": "e5", "args": ["-props", "C19"], "tag": "C19"}],
+    "model_scope": "client/client.go (Proxies, Proxy, CreateProxy, ResetState, AddToxic, UpdateToxic, RemoveToxic, get/post/patch/delete, validateResponse), client/proxy.go (Save, Enable, Disable, Delete, Toxics, AddToxic, UpdateToxic, RemoveToxic), cmd/cli/cli.go (list, inspect, create, toggle, delete, toxic add/update/remove: the requests they cause and their exit status); the server side is the API model of C05",
+    "assumptions": _E4_ASSUME + [
+        "the requests the real client and the real toxiproxy-cli binary put on the wire are recorded by a reverse proxy in front of a real ApiServer; compared per operation: method, path, JSON body (key order ignored; the client's private `toxics` key of a proxy body, which the server ignores, is dropped), call result (error / exit status), and the server state read by raw GET afterwards",
+        "Client.Populate and Version, text output of the CLI (formatting), and names that need URL escaping are not modelled",
+    ],
+}
+
+
 _E3_ASSUME = [
     "Go channel/select/WaitGroup semantics and testing/synctest's virtual clock; the network of goroutines of a link is confluent except for selects with two ready cases, which the model flags and the engine then stops comparing (episodes stopped are counted)",
     "toxicity is 0 or 1 and random draws are constant in E3 (the order in which concurrently restarted stubs draw is not deterministic)",
@@ -173,6 +188,7 @@ _TIES = {
     "C14": ["tie_run", "tie_toxic_json", "tie_chain_ops", "tie_update_link"],
     "C15": ["tie_stub_close", "tie_link_read", "tie_link_write", "tie_interrupt"],
     "C17": ["tie_collection", "tie_update", "tie_routes"],
+    "C19": ["tie_client", "tie_cli", "tie_routes"],
     "C18": ["tie_chanreader"],
     "C20": ["tie_link_read", "tie_link_write"],
 }
